@@ -348,6 +348,8 @@ pub fn cycles_job(thorough: bool) -> Job {
 pub fn all_jobs(thorough: bool) -> Vec<Job> {
     let mut v = vec![];
     v.push(wakerseq_job(thorough));
+    // a waker whose clone() panics: the unwound poll must not cost the future its way to unlink itself
+    v.push(job(Cfg::new("panicwaker", &[("x", 0)]), false, thorough));
     v.extend(burst_jobs(thorough, &[0, 1, 2, 3, 4, 5, 6, 7, 8, 9]));
     v.extend(wide_jobs(thorough));
     v.extend(mutex_jobs(thorough, false));
